@@ -291,7 +291,8 @@ def run_check(args, prop, t0):
             note = 'same group as this replay; own replay not written (cap %d)' % MAX_REPLAYS
         lines.append('VIOLATION property=%s replay=%s oracle=%s seed=%d family=%s %s :: %s' % (
             prop, path, v['oracle'], s['seed'], g[3], note,
-            (verdict.get('detail') or ('got %s want %s' % (verdict.get('got'), verdict.get('want'))))[:300]))
+            ((('[%s] ' % verdict['label']) if verdict.get('label') else '') +
+             (verdict.get('detail') or ('got %s want %s' % (verdict.get('got'), verdict.get('want')))))[:300]))
     for k in known:
         if k.get('status') == 'open' and k['property'] == prop:
             print('KNOWN-FINDING: property=%s %s :: %s (seen %d times in this run)' % (
